@@ -21,6 +21,7 @@ import (
 	"runtime/debug"
 	"strings"
 	"testing"
+	"time"
 
 	"github.com/maruel/panicparse/v2/internal/verifx/gen"
 	"github.com/maruel/panicparse/v2/internal/verifx/h"
@@ -49,7 +50,37 @@ func robustCheck(input []byte, renderHTML bool) *h.Viol {
 	return robustCheckOpts(input, renderHTML, plainOpts)
 }
 
+// c03Hung is set once an input made the library spin: the goroutine cannot be
+// stopped, so nothing more is run in this shard and every later input reports the
+// same condition at once (the shard then ends quickly).
+var c03Hung string
+
+// c03Watchdog bounds the work on one input (scan loop, 4 aggregations, 2 renderings of
+// at most a few hundred kilobytes: milliseconds). Only a clock can see a loop that
+// neither reads nor writes.
+const c03Watchdog = 90 * time.Second
+
 func robustCheckOpts(input []byte, renderHTML bool, mkOpts func() *Opts) *h.Viol {
+	hung := func(msg string) *h.Viol {
+		v := &h.Viol{Fingerprint: "C03/no-termination", Summary: msg, Kind: "input"}
+		v.SetInput(input)
+		return v
+	}
+	if c03Hung != "" {
+		return hung("not run: " + c03Hung)
+	}
+	ch := make(chan *h.Viol, 1)
+	go func() { ch <- robustCheckInner(input, renderHTML, mkOpts) }()
+	select {
+	case v := <-ch:
+		return v
+	case <-time.After(c03Watchdog):
+		c03Hung = fmt.Sprintf("an earlier input (%d bytes, %s) was still being processed after %v", len(input), h.Hash(string(input)), c03Watchdog)
+		return hung(fmt.Sprintf("scanning, aggregating and rendering a %d byte input did not finish within %v", len(input), c03Watchdog))
+	}
+}
+
+func robustCheckInner(input []byte, renderHTML bool, mkOpts func() *Opts) *h.Viol {
 	nLines := bytes.Count(input, []byte("\n")) + 1
 	mk := func(fp, msg string) *h.Viol {
 		v := &h.Viol{Fingerprint: "C03/" + fp, Summary: msg, Kind: "input"}
@@ -123,7 +154,7 @@ func renderAll(s *Snapshot, renderHTML bool, mk func(fp, msg string) *h.Viol) (v
 func TestVerifC03(t *testing.T) {
 	r := h.Start("C03")
 	defer r.Finish(func(s string) { t.Error(s) })
-	r.Set("rule", "(a) every (product state, symbol) trace of the C07 search incl. malformed symbols, under recover; (b) per seed input (one per line kind of both grammars): all single line edits (delete i, duplicate i, swap i j, move i->j, splice line k of another seed at i; thorough: all pairs of delete/duplicate/splice edits), all single token corruptions (every number x 8 replacements, every position of every symbol x 9 escape fragments, every argument list x 19 bracket patterns, every address x 5), all single byte substitutions (256 values x every offset) of three short seeds, all truncations; (c) every returned snapshot: Aggregate x 4, both ToHTML; (d) resume loop terminates within lines+2 calls with progress; (e) allocation and Read-call growth on n, 2n, 4n inputs; (f) the same edit families over two dumps whose frames point at real sources (scratch GOPATH, scratch module, local Go root) scanned with path guessing and source analysis on, plus every ordered pair of frame-class sequences of length 1..3 over {main, other package, standard library} as two goroutines of one dump. non-trivial = the edited input differs from its seed; distinct = input bytes")
+	r.Set("rule", "(a) every (product state, symbol) trace of the C07 search incl. malformed symbols, under recover; (b) per seed input (one per line kind of both grammars): all single line edits (delete i, duplicate i, swap i j, move i->j, splice line k of another seed at i; thorough: all pairs of delete/duplicate/splice edits), all single token corruptions (every number x 8 replacements, every position of every symbol x 9 escape fragments, every argument list x 19 bracket patterns, every address x 5), all single byte substitutions (256 values x every offset) of three short seeds, all truncations; (c) every returned snapshot: Aggregate x 4, both ToHTML; (d) resume loop terminates within lines+2 calls with progress; (e) allocation and Read-call growth on n, 2n, 4n inputs; (f) the same edit families over two dumps whose frames point at real sources (scratch GOPATH, scratch module, local Go root) scanned with path guessing and source analysis on, plus every ordered pair of frame-class sequences of length 1..3 over {main, other package, standard library} as two goroutines of one dump, plus every import path of 1..3 elements over 15 elements the link/location helpers look for (vendor directories and look-alikes, hosts, versions) under the GOPATH's src and pkg/mod trees. non-trivial = the edited input differs from its seed; distinct = input bytes")
 	r.Set("assumptions", []string{"coverage-guided mutation (a sampling technique) is replaced by the bounded edit/corruption product", "console rendering and the pp binary are exercised by the C03 part in package internal"})
 	if rv := r.ReplayFile(); rv != nil {
 		in := rv.Input()
@@ -265,6 +296,32 @@ func TestVerifC03(t *testing.T) {
 			for j, b := range seqs {
 				in := []byte(stackText(1, "running", []int{0}) + stackText(2, "select", a) + stackText(3, "select", b))
 				tryFull("stack-pair", 2000+i*len(seqs)+j, in, true)
+			}
+		}
+		// import-path shapes: every path of 1..3 elements over an alphabet of elements the
+		// link and location helpers look for (vendor directories and look-alikes, hosts,
+		// versions with and without tag, empty elements), as a package under the GOPATH's
+		// src and pkg/mod trees, next to a frame that makes the root detectable; scanned
+		// with path guessing on and rendered to HTML
+		elems := []string{"vendor", "govendor", "vendorx", "a", "github.com", "golang.org", "x", "gopkg.in", "yaml.v2", "mod@v1.2.3", "mod@", "@", "mod@release-1", "v2", ""}
+		var paths []string
+		var recp func(cur []string)
+		recp = func(cur []string) {
+			if len(cur) > 0 {
+				paths = append(paths, strings.Join(cur, "/"))
+			}
+			if len(cur) == 3 {
+				return
+			}
+			for _, e := range elems {
+				recp(append(append([]string{}, cur...), e))
+			}
+		}
+		recp(nil)
+		for pi, pth := range paths {
+			for ti, tree := range []string{"/gp/src/", "/gp/pkg/mod/"} {
+				in := []byte(fmt.Sprintf("goroutine 1 [running]:\nexample.com/p.Work(0x1, {0xc000012340, 0x3}, 0x5)\n\t%s/gp/src/example.com/p/p.go:4 +0x1\n%s.Exported(0x1)\n\t%s%s%s/f.go:10 +0x2\ncreated by %s.start in goroutine 5\n\t%s%s%s/f.go:20 +0x3\n", root, gen.PathToPrefix(pth), root, tree, pth, gen.PathToPrefix(pth), root, tree, pth))
+				tryFull("import-path-shape", 10000+pi*2+ti, in, true)
 			}
 		}
 	}
